@@ -1,5 +1,6 @@
 import Driver.Util
 import Bifrost.Model.SolicitSys
+import Bifrost.Model.SolicitHub
 /-! Line protocol for the two-sided solicitation exchange (`Bifrost.SolicitSys`).
 
 `solicitsys.run pa= pb= ta= tb= maxa= maxb= ops=<op>,<op>,… orc=<pre>:<hash>,…`
@@ -72,6 +73,44 @@ def showNode (p : String) (n : Node) : String :=
 def showStreams (l : List Stream) : String :=
   if l.isEmpty then "_" else ",".intercalate (l.map fun s => s!"{hexOrDash s.hash}:{showSide s.opener}")
 
+/-- the answer for one link (the format of `run`) -/
+def showLink (H : Bytes → Bytes) (c : Cfg) (st : State) : String :=
+  let lower := if c.isLower .A then "A" else if c.isLower .B then "B" else "-"
+  s!"ok sid={hexOrDash (c.sid H .A)} sidb={hexOrDash (c.sid H .B)} lower={lower} " ++
+    showNode "a" st.a ++ " " ++ showNode "b" st.b ++
+    s!" streams={showStreams st.streams} q={if decide (quiescent H c st) then 1 else 0}"
+
+/-! `solicitsys.hub links=<pa>:<pb>:<ta>:<tb>:<maxa>:<maxb>;… ops=<op>,… orc=…` — a node (side A of
+every link) with several links (`Bifrost.SolicitHub`). ops: `aH:<pid>:<ctx>:<peer>:<tpt>` /
+`rH:<id>` directive added to / removed from the hub (all links), `L<i>.<op>` an op of `run` on
+link `i` (not `aA` / `rA`). Answer: the per-link answers of `run`, joined by ` | `. -/
+
+def parseCfg (s : String) : Option Cfg :=
+  match s.splitOn ":" with
+  | [pa, pb, ta, tb, ma, mb] => do
+    some ⟨← unhex pa, ← unhex pb, ← ta.toNat?, ← tb.toNat?, ← ma.toNat?, ← mb.toNat?⟩
+  | _ => none
+
+def parseHubOp (t : String) : Option SolicitHub.Op :=
+  if t.startsWith "aH:" then
+    match t.splitOn ":" with
+    | [_, pid, ctx, peer, tpt] => do some (.add ⟨← unhex pid, ← unhex ctx, ← unhex peer, ← tpt.toNat?⟩)
+    | _ => none
+  else if t.startsWith "rH:" then
+    match t.splitOn ":" with
+    | [_, id] => do some (.remove (← id.toNat?))
+    | _ => none
+  else if t.startsWith "L" then
+    match ((t.drop 1).toString).splitOn "." with
+    | [i, o] => do
+      let o' ← parseOp o
+      if SolicitHub.hubDir o' then none else some (.link (← i.toNat?) o')
+    | _ => none
+  else none
+
+def parseHubOps (s : String) : Option (List SolicitHub.Op) :=
+  if s = "_" then some [] else (s.splitOn ",").mapM parseHubOp
+
 def handle (op : String) (args : List String) : Option String :=
   match op with
   | "run" => do
@@ -93,10 +132,30 @@ def handle (op : String) (args : List String) : Option String :=
       let missing := (pres.filter fun p => (lookup tab p).isNone).eraseDups
       if !missing.isEmpty then some ("need " ++ showBytesList missing) else
       let st := run H c ops
-      let lower := if c.isLower .A then "A" else if c.isLower .B then "B" else "-"
-      some (s!"ok sid={hexOrDash (c.sid H .A)} sidb={hexOrDash (c.sid H .B)} lower={lower} " ++
-        showNode "a" st.a ++ " " ++ showNode "b" st.b ++
-        s!" streams={showStreams st.streams} q={if decide (quiescent H c st) then 1 else 0}")
+      some (showLink H c st)
+  | "hub" => do
+    let cfgs ← ((← kv args "links").splitOn ";").mapM parseCfg
+    let ops ← (kv args "ops").bind parseHubOps
+    let tab ← (kv args "orc").bind parseOracle
+    let H : Bytes → Bytes := fun pre => (lookup tab pre).getD []
+    -- session ids first
+    let spres := cfgs.map fun c => sessionPreimage c.pA c.pB
+    let missS := (spres.filter fun p => (lookup tab p).isNone).eraseDups
+    if !missS.isEmpty then some ("need " ++ showBytesList missS) else
+    -- the protocol preimages: a hub directive is hashed under every link's session id, a
+    -- spoke's directive under its own link's
+    let idx := List.range cfgs.length
+    let pres := (idx.zip cfgs).flatMap fun (i, c) =>
+      let sid := c.sid H .A
+      ops.filterMap fun o =>
+        match o with
+        | .add d => some (protocolPreimage sid d.pid d.ctx)
+        | .link j (.add _ d) => if j = i then some (protocolPreimage sid d.pid d.ctx) else none
+        | _ => none
+    let missing := (pres.filter fun p => (lookup tab p).isNone).eraseDups
+    if !missing.isEmpty then some ("need " ++ showBytesList missing) else
+    let st := SolicitHub.run H cfgs ops
+    some (" | ".intercalate ((cfgs.zip st).map fun (c, s) => showLink H c s))
   | _ => none
 
 end Driver.Solicitsys
